@@ -470,3 +470,43 @@ Proof.
 Qed.
 
 End Filter.
+
+(* ------------------------------- filter_with_ids on the dict of named blocks *)
+Section FilterNamed.
+Context {V : Type}.
+Variable ts : list string.
+
+Lemma update_self_nodup (bs : @blocks V) s : update_self bs = Some s -> NoDup (ids (flatten bs)).
+Proof.
+  unfold update_self. destruct (nodupZ (ids (flatten bs))) eqn:E; simpl; [|discriminate].
+  intros _. apply nodupZ_NoDup. exact E.
+Qed.
+
+Lemma In_rename (X : table (nat * V)) i t v :
+  In (i, (t, v)) (map (rename ts) X) <-> exists k, t = type_name ts k /\ In (i, (k, v)) X.
+Proof.
+  rewrite in_map_iff. unfold rename. split.
+  - intros [[j [k w]] [E H]]. simpl in E. inversion E; subst. exists k. auto.
+  - intros [k [E H]]. subst. exists (i, (k, v)). auto.
+Qed.
+
+(* filter_with_ids on the dict: the result holds exactly the requested
+   elements that exist, each under the key of its block with its own row *)
+Theorem efilter_named_In (d : @edict V) (s : @nsummary V) l i t v :
+  NoDup ts -> NoDup (map fst d) -> (forall k, In k (map fst d) -> In k ts) ->
+  update_self_named ts d = Some s ->
+  (In (i, (t, v)) (kflatten (efilter_named ts d l)) <-> In i l /\ In (i, (t, v)) (kflatten d)).
+Proof.
+  intros Nts Nd Sub U. unfold update_self_named in U.
+  destruct (update_self (to_blocks ts d)) as [s0|] eqn:U0; [|discriminate].
+  pose proof (update_self_nodup _ _ U0) as ND.
+  destruct (items_perm ts d Nts Nd Sub) as [PI _].
+  assert (KD : forall x, In x (kflatten d) <-> In x (map (rename ts) (flatten (to_blocks ts d)))).
+  { intros x. rewrite kflatten_names, to_blocks_names. split; apply Permutation_in; apply kflatten_perm;
+      [apply Permutation_sym; exact PI|exact PI]. }
+  unfold efilter_named. rewrite <- kflatten_names, In_rename, KD, In_rename. split.
+  - intros [k [E H]]. apply efilter_In in H; auto. destruct H as [Hl H]. split; auto. exists k. auto.
+  - intros [Hl [k [E H]]]. exists k. split; auto. apply efilter_In; auto.
+Qed.
+
+End FilterNamed.
